@@ -1,4 +1,421 @@
-import PysamlModel.Proofs.C14Codec
-import PysamlModel.Spec.C14
+/-
+  C14 — Bindings deliver messages and relay state intact and inert.
+  Property theorems only (plus non-vacuity examples).  Every statement quantifies over ALL byte
+  strings (`List Nat` with every element `< 256`, any length): messages, relay states, destinations,
+  entity ids, handles.  zlib and SHA-1 are parameters with their laws as hypotheses.
+
+  Helper lemmas: `Proofs/C14Codec.lean`, `C14Url.lean`, `C14Html.lean`, `C14Form.lean`, `C14Misc.lean`.
+-/
+import PysamlModel.Proofs.C14Misc
+
 namespace C14
+open Codec HtmlScan Bindings C14Spec
+
+/-! ## 1. Codecs -/
+
+/-- base64: decoding an encoded byte string gives it back (any length: induction on chunks of 3). -/
+theorem C14_b64_roundtrip (bs : Bytes) (h : IsBytes bs) : b64decode (b64encode bs) = some bs :=
+  b64_roundtrip bs h
+
+example : b64decode (b64encode [0, 255, 16, 77]) = some [0, 255, 16, 77] := by decide
+
+/-- The same through the `str` entry point `Entity.unravel` uses (the encoding is pure ASCII). -/
+theorem C14_b64_str_roundtrip (bs : Bytes) (h : IsBytes bs) : b64decodeStr (b64encode bs) = some bs :=
+  b64decodeStr_encode bs h
+
+/-- `html.escape(s, quote=True)` output is inert: none of `< > " '`, and `&` only as the start of
+    one of the five entities it produces. -/
+theorem C14_htmlEscape_inert (s : Bytes) : inertEscaped (htmlEscape s) = true := htmlEscape_inert s
+
+example : htmlEscape [34, 62, 60, 38, 39, 97] ≠ [34, 62, 60, 38, 39, 97] ∧ inertEscaped [34, 62] = false := by decide
+
+/-- Entity decoding gives the original string back. -/
+theorem C14_htmlUnescape_escape (s : Bytes) : htmlUnescape (htmlEscape s) = s := htmlUnescape_escape s
+
+example : htmlUnescape (htmlEscape [38, 97, 109, 112, 59, 34]) = [38, 97, 109, 112, 59, 34] := by decide
+
+/-- `unquote_plus(quote_plus(s)) == s`. -/
+theorem C14_quote_roundtrip (s : Bytes) (h : IsBytes s) : unquotePlus (quotePlus s) = s := quote_roundtrip s h
+
+example : unquotePlus (quotePlus [43, 32, 37, 38, 61, 195, 169]) = [43, 32, 37, 38, 61, 195, 169] := by decide
+
+/-- Law 1 used by C15: `quote_plus` is injective on byte strings. -/
+theorem C14_quotePlus_injective (a b : Bytes) (ha : IsBytes a) (hb : IsBytes b) (h : quotePlus a = quotePlus b) : a = b :=
+  quotePlus_injective a b ha hb h
+
+/-- Law 2 used by C15: `quote_plus` output contains no `&`, `=`, `#`, `?` or space. -/
+theorem C14_quotePlus_no_amp_eq (s : Bytes) : ∀ c ∈ quotePlus s, c ≠ 38 ∧ c ≠ 61 ∧ c ≠ 35 ∧ c ≠ 63 ∧ c ≠ 32 :=
+  quotePlus_no_amp_eq s
+
+/-- `parse_qsl(urlencode(params)) == params` for any parameter list whose values are non-empty
+    (blank values are dropped by `parse_qsl`'s default). -/
+theorem C14_urlencode_roundtrip (ps : List (Bytes × Bytes))
+    (h : ∀ kv ∈ ps, IsBytes kv.1 ∧ IsBytes kv.2 ∧ kv.2 ≠ []) : parseQsl (urlencode ps) = ps :=
+  urlencode_roundtrip ps h
+
+example : parseQsl (urlencode [([97, 38], [61, 32, 43]), ([98], [35, 63])]) = [([97, 38], [61, 32, 43]), ([98], [35, 63])] := by
+  decide
+
+/-! ## 2. HTTP-POST form -/
+
+/-- **Inertness of the form.**  Whatever the message, destination, relay state and parameter name
+    are: the scanner's event stream over the generated page is the template's own event stream in
+    which every hole is filled with the (escaped) caller string as attribute-VALUE characters and
+    nothing else; the page is well formed; and its tags and attribute names are those of the
+    template rendered with empty values.  Caller strings add no markup and no attributes. -/
+theorem C14_form_inert (typ msg loc rs html : Bytes) (h : formPost typ msg loc rs = some html) :
+    ∃ p, postPayload typ msg = some p ∧
+      scan .data html = (scanT .data (formTemplate (!rs.isEmpty))).flatMap (instEv (formVals typ p loc rs)) ∧
+      wellFormed html = true ∧
+      (tags html).map shape = (tags (render (fun _ => []) (formTemplate (!rs.isEmpty)))).map shape := by
+  obtain ⟨p, hp, rfl⟩ := formPost_some typ msg loc rs html h
+  have hv := formVals_no_quote typ p loc rs
+  have hok := formTemplate_holesOk (!rs.isEmpty)
+  refine ⟨p, hp, (scan_render _ hv .data _ hok).1, ?_, ?_⟩
+  · have := scanDoc_render _ hv _ hok
+    have hw : wellFormed (render (formVals typ p loc rs) (formTemplate (!rs.isEmpty))) =
+        (scanDoc (render (formVals typ p loc rs) (formTemplate (!rs.isEmpty)))).1 := rfl
+    rw [hw, this]
+    exact formTemplate_wf _
+  · rw [tags_render _ hv _ hok, tags_render (fun _ => []) (by simp) _ hok]
+    simp only [List.map_map]
+    apply List.map_congr_left
+    intro t _
+    simp [shape_inst]
+
+/-- The page exists whenever the payload does (the template has no unknown replacement field). -/
+theorem C14_form_defined (typ msg loc rs : Bytes) (h : typ = sSAMLRequest ∨ typ = sSAMLResponse) :
+    (formPost typ msg loc rs).isSome = true := by
+  have : postPayload typ msg = some (b64encode msg) := by simp [postPayload, h]
+  rw [formPost_eq typ msg loc rs _ this]; rfl
+
+/-- The controls a browser submits and the form's target, entity-decoded. -/
+def submitted (html : Bytes) : List (Bytes × Bytes) :=
+  (rawFields (tags html)).map (fun p => (htmlUnescape p.1, htmlUnescape p.2))
+def formActions (html : Bytes) : List Bytes := (rawActions (tags html)).map htmlUnescape
+
+theorem fields_of_form (typ p loc rs : Bytes) :
+    submitted (render (formVals typ p loc rs) (formTemplate (!rs.isEmpty))) = withRelay (typ, p) rs ∧
+    formActions (render (formVals typ p loc rs) (formTemplate (!rs.isEmpty))) = [loc] := by
+  have hv := formVals_no_quote typ p loc rs
+  have hok := formTemplate_holesOk (!rs.isEmpty)
+  unfold submitted formActions
+  rw [tags_render _ hv _ hok, rawFields_inst, rawActions_inst, formTemplate_actions]
+  constructor
+  · unfold withRelay
+    by_cases he : rs.isEmpty = true
+    · have hne : ¬ (10 : Nat) = 1 := by decide
+      have hne2 : ¬ (11 : Nat) = 1 := by decide
+      have hne3 : ¬ (11 : Nat) = 10 := by decide
+      simp [he, formTemplate_fields_norelay, instVal_hole, formVals, htmlUnescape_escape]
+    · have he' : rs.isEmpty = false := by simpa using he
+      simp only [he', Bool.not_false, formTemplate_fields_relay, List.map_cons, List.map_nil, instVal_hole,
+        instVal_lit, Bool.false_eq_true, if_false]
+      simp [formVals, htmlUnescape_escape]
+      decide
+  · simp [instVal_hole, formVals, htmlUnescape_escape]
+
+/-- **Round trip through the form.**  The receiver's HTML parser finds exactly the SAML control and
+    (iff a relay state was given) the RelayState control, with the exact relay state; the action is
+    the destination; `Entity.unravel` gives the message back byte for byte.  `hinf`: the message
+    is not itself a valid raw-DEFLATE stream that inflates to something else (see
+    `C14_post_unravel_full` / `_counterexample`). -/
+theorem C14_post_roundtrip (inflate : Bytes → Option Bytes) (typ msg loc rs html : Bytes)
+    (ht : typ = sSAMLRequest ∨ typ = sSAMLResponse) (hmsg : IsBytes msg)
+    (hinf : inflate msg = none ∨ inflate msg = some msg)
+    (h : formPost typ msg loc rs = some html) :
+    submitted html = withRelay (typ, b64encode msg) rs ∧ formActions html = [loc] ∧
+      unravelPost inflate (b64encode msg) = some msg := by
+  have hp : postPayload typ msg = some (b64encode msg) := by simp [postPayload, ht]
+  rw [formPost_eq typ msg loc rs _ hp] at h
+  cases Option.some.inj h
+  obtain ⟨h1, h2⟩ := fields_of_form typ (b64encode msg) loc rs
+  refine ⟨h1, h2, ?_⟩
+  unfold unravelPost
+  rw [b64decodeStr_encode msg hmsg]
+  rcases hinf with e | e <;> simp [e]
+
+/-- A sender that deflates before base64 (some do, for POST too) is understood as well. -/
+theorem C14_post_unravel_deflated (D : Deflate) (msg : Bytes) (hmsg : IsBytes msg) :
+    unravelPost D.inflate (b64encode (D.deflate msg)) = some msg := by
+  unfold unravelPost
+  rw [b64decodeStr_encode _ (D.isBytes msg hmsg)]
+  simp [D.law msg hmsg]
+
+/-- Full statement for the non-deflating sender: false of the code as it is, because
+    `Entity.unravel` guesses by trial inflation. -/
+def C14_post_unravel_full : Prop :=
+  ∀ (D : Deflate) (msg : Bytes), IsBytes msg → unravelPost D.inflate (b64encode msg) = some msg
+
+theorem C14_post_unravel_partial (D : Deflate) (msg : Bytes) (hmsg : IsBytes msg)
+    (hinf : D.inflate msg = none ∨ D.inflate msg = some msg) :
+    unravelPost D.inflate (b64encode msg) = some msg := by
+  unfold unravelPost
+  rw [b64decodeStr_encode msg hmsg]
+  rcases hinf with e | e <;> simp [e]
+
+/-- A toy lawful `Deflate` (a one-byte header): the byte string `[0, 60]` "inflates" to `[60]`. -/
+def toyDeflate : Deflate where
+  deflate b := 0 :: b
+  inflate b := match b with | 0 :: r => some r | _ => none
+  law := by intro b _; rfl
+  isBytes := by
+    intro b hb c hc
+    rcases List.mem_cons.mp hc with e | e
+    · subst e; decide
+    · exact hb c e
+  nonempty := by intro b; simp
+
+theorem C14_post_unravel_counterexample : ¬ C14_post_unravel_full := by
+  intro h
+  have := h toyDeflate [0, 60] (by decide)
+  revert this
+  decide
+
+/-- The model's page satisfies the specification the driver evaluates on the implementation. -/
+theorem C14_model_meets_spec_form (inflate : Bytes → Option Bytes) (typ msg loc rs html : Bytes)
+    (hmsg : IsBytes msg) (hinf : inflate msg = none ∨ inflate msg = some msg)
+    (h : formPost typ msg loc rs = some html) :
+    specForm inflate (render (fun _ => []) (formTemplate (!rs.isEmpty))) typ msg loc rs html = true := by
+  obtain ⟨p, hp, rfl⟩ := formPost_some typ msg loc rs html h
+  have hv := formVals_no_quote typ p loc rs
+  have hok := formTemplate_holesOk (!rs.isEmpty)
+  unfold specForm
+  simp only [scanDoc_render _ hv _ hok, formTemplate_wf, Bool.true_and]
+  rw [tags_render (fun _ => []) (by simp) _ hok, rawFields_inst, rawActions_inst, formTemplate_actions]
+  have hshape : List.map shape (List.map (Tag.inst (formVals typ p loc rs)) (collect {} (scanT .data (formTemplate (!rs.isEmpty))))) =
+      List.map shape (List.map (Tag.inst fun _ => []) (collect {} (scanT .data (formTemplate (!rs.isEmpty))))) := by
+    simp only [List.map_map]
+    apply List.map_congr_left
+    intro t _
+    simp [shape_inst]
+  rw [hshape]
+  have hdel : delivers inflate typ p msg = true := by
+    unfold delivers postPayload at *
+    by_cases ht : typ = sSAMLRequest ∨ typ = sSAMLResponse
+    · simp only [ht, if_true] at hp ⊢
+      cases Option.some.inj hp
+      unfold specPostDelivery unravelPost
+      rw [b64decodeStr_encode msg hmsg]
+      rcases hinf with e | e <;> simp [e]
+    · simp only [ht, if_false] at hp ⊢
+      split at hp
+      · cases Option.some.inj hp; simp
+      · cases hp
+  have hesc := escapedIs_escape
+  have hpe : escapedIs (htmlEscape p) p = true := hesc p
+  unfold escapedIs at hpe
+  simp only [Bool.and_eq_true, Bool.not_eq_true', beq_iff_eq] at hpe
+  simp only [beq_self_eq_true, Bool.true_and, List.map_cons, List.map_nil, instVal_hole]
+  by_cases he : rs.isEmpty = true
+  · simp [he, formTemplate_fields_norelay, instVal_hole, fieldsOk, formVals, hesc, hpe.1.1, hpe.1.2, hpe.2, hdel]
+  · have he' : rs.isEmpty = false := by simpa using he
+    simp [he', formTemplate_fields_relay, instVal_hole, instVal_lit, fieldsOk, formVals, hesc, hpe.1.1, hpe.1.2, hpe.2, hdel]
+    decide
+
+/-! ## 3. HTTP-Redirect and the artifact URL -/
+
+/-- Full statement (every destination): the receiver's query parameters are the destination's own
+    followed by exactly the intended ones.  False of the code as it is (known findings
+    `C14/redirect-destination-fragment`, `C14/redirect-destination-empty-query`). -/
+def C14_url_inert_full : Prop :=
+  ∀ (D : Deflate) (typ msg loc rs url : Bytes), (typ = sSAMLRequest ∨ typ = sSAMLResponse) →
+    IsBytes msg → IsBytes rs → redirectUrl D.deflate true typ msg loc rs = some url →
+    parseQsl (queryOf url) = parseQsl (queryOf loc) ++ withRelay (typ, b64encode (D.deflate msg)) rs
+
+/-- **Inertness of the URL** for every destination without `#` whose `?`, if any, is followed by
+    a non-empty query (`locOk`), ANY relay state and message: no caller string adds, removes or
+    changes a query parameter. -/
+theorem C14_url_inert_partial (D : Deflate) (typ msg loc rs url : Bytes)
+    (ht : typ = sSAMLRequest ∨ typ = sSAMLResponse) (hmsg : IsBytes msg) (hrs : IsBytes rs)
+    (hloc : locOk loc = true) (h : redirectUrl D.deflate true typ msg loc rs = some url) :
+    parseQsl (queryOf url) = parseQsl (queryOf loc) ++ withRelay (typ, b64encode (D.deflate msg)) rs := by
+  have htb : IsBytes typ := by rcases ht with e | e <;> subst e <;> decide
+  have hargs : redirectArgs D.deflate typ msg rs = some (withRelay (typ, b64encode (D.deflate msg)) rs) := by
+    simp [redirectArgs, ht]
+  simp only [redirectUrl, hargs, glueUrl, if_true] at h
+  cases Option.some.inj h
+  have hround := withRelay_roundtrip typ (b64encode (D.deflate msg)) rs htb
+    (b64encode_isBytes _ (D.isBytes msg hmsg)) (b64encode_ne_nil _ (D.nonempty msg)) hrs
+  have := glue_spec loc _ _ (urlencode_no_hash _) hround hloc
+  simpa [specUrl] using this
+
+theorem C14_url_inert_counterexample : ¬ C14_url_inert_full := by
+  intro h
+  have := h toyDeflate sSAMLRequest [60] [35] [] _ (Or.inl rfl) (by decide) (by decide) rfl
+  revert this
+  decide
+
+/-- A second witness: a destination ending in `?`. -/
+example : ¬ (parseQsl (queryOf ((redirectUrl toyDeflate.deflate true sSAMLRequest [60] [47, 63] []).getD [])) =
+    parseQsl (queryOf [47, 63]) ++ withRelay (sSAMLRequest, b64encode (toyDeflate.deflate [60])) []) := by decide
+
+/-- **Round trip through the redirect URL** (under the `Deflate` law and `locOk`): the receiver
+    finds the destination's own parameters, then the SAML parameter whose value `Entity.unravel`
+    turns back into the message byte for byte, then RelayState iff one was given, unchanged. -/
+theorem C14_redirect_roundtrip (D : Deflate) (typ msg loc rs url : Bytes)
+    (ht : typ = sSAMLRequest ∨ typ = sSAMLResponse) (hmsg : IsBytes msg) (hrs : IsBytes rs)
+    (hloc : locOk loc = true) (h : redirectUrl D.deflate true typ msg loc rs = some url) :
+    specRedirect D.inflate typ msg loc rs url = true := by
+  apply specRedirect_of_params D.inflate typ msg loc rs url (b64encode (D.deflate msg))
+    (C14_url_inert_partial D typ msg loc rs url ht hmsg hrs hloc h)
+  have hne : typ ≠ sSAMLart := by rcases ht with e | e <;> subst e <;> decide
+  simp only [hne, if_false]
+  unfold specRedirectDelivery
+  rw [unravelRedirect_deflated D msg hmsg]
+  simp
+
+example : locOk [104, 47, 63, 97, 61, 98] = true ∧ locOk [104, 47] = true ∧ locOk [104, 35] = false ∧ locOk [104, 63] = false := by
+  decide
+
+/-- The artifact URL (`use_http_artifact`): same statement for the `SAMLart` parameter. -/
+theorem C14_artifact_url_partial (art loc rs url : Bytes) (hart : IsBytes art) (hne : art ≠ []) (hrs : IsBytes rs)
+    (hloc : locOk loc = true) (h : artifactUrl true art loc rs = some url) :
+    specUrl loc (withRelay (sSAMLart, art) rs) url = true := by
+  simp only [artifactUrl, glueUrl, if_true] at h
+  cases Option.some.inj h
+  exact glue_spec loc _ _ (urlencode_no_hash _) (withRelay_roundtrip sSAMLart art rs isBytes_SAMLart hart hne hrs) hloc
+
+/-- `http_redirect_message(typ="SAMLart")`: the artifact travels verbatim. -/
+theorem C14_redirect_art_roundtrip (deflate : Bytes → Bytes) (inflate : Bytes → Option Bytes) (art loc rs url : Bytes)
+    (hart : IsBytes art) (hne : art ≠ []) (hrs : IsBytes rs) (hloc : locOk loc = true)
+    (h : redirectUrl deflate true sSAMLart art loc rs = some url) :
+    specRedirect inflate sSAMLart art loc rs url = true := by
+  have hargs : redirectArgs deflate sSAMLart art rs = some (withRelay (sSAMLart, art) rs) := by
+    simp [redirectArgs]; decide
+  simp only [redirectUrl, hargs, glueUrl, if_true] at h
+  cases Option.some.inj h
+  have := glue_spec loc _ _ (urlencode_no_hash _) (withRelay_roundtrip sSAMLart art rs isBytes_SAMLart hart hne hrs) hloc
+  apply specRedirect_of_params inflate sSAMLart art loc rs _ art (by simpa [specUrl] using this)
+  simp
+
+/-! ## 4. SOAP -/
+
+/-- **Tree level.**  Wrapping an element (with or without header blocks) and unwrapping gives the
+    element back, whole, iff its tag is expected; otherwise the envelope is refused. -/
+theorem C14_soap_tree_roundtrip {ε τ : Type} [DecidableEq τ] (tagOf : ε → τ) (expected : List τ) (hdrs : List ε) (e : ε) :
+    soapUnwrapTree tagOf expected (soapWrapTree hdrs e) = if tagOf e ∈ expected then .elem e else .refused :=
+  soapUnwrap_wrap tagOf expected hdrs e
+
+example : soapUnwrapTree (fun (e : Nat) => e % 10) [3] (soapWrapTree [7, 8] 13) = .elem 13 ∧
+    soapUnwrapTree (fun (e : Nat) => e % 10) [4] (soapWrapTree [] 13) = .refused := by decide
+
+theorem C14_model_meets_spec_soap {ε τ : Type} [DecidableEq ε] [DecidableEq τ] (tagOf : ε → τ) (expected : List τ)
+    (hdrs : List ε) (e : ε) :
+    specSoapTree tagOf expected e (soapWrapTree hdrs e) (soapUnwrapTree tagOf expected (soapWrapTree hdrs e)) = true := by
+  rw [soapUnwrap_wrap]
+  unfold specSoapTree soapWrapTree
+  by_cases hh : hdrs.isEmpty = true <;> by_cases ht : tagOf e ∈ expected <;> simp [hh, ht]
+
+/-- The declaration-free text of `pack.PREFIX` does not occur in `e`. -/
+def NoPrefix (e : List Nat) : Prop := ¬ Gen.FormSpec.xmlPrefix <:+: e
+
+/-- **String level, no XML declaration**: the message text is spliced verbatim between the envelope's
+    opening and closing text. -/
+theorem C14_soap_string_nodecl (e : List Nat) (hd : (e.take 5).map asciiLower ≠ sXmlDeclStart) (hp : NoPrefix e) :
+    soapWrapStr e = envPre ++ e ++ envPost := by
+  unfold soapWrapStr stripDecl removeAll
+  simp only [hd, if_false]
+  rw [removeAllGo_not_infix _ _ hp]
+
+/-- Full string-level statement with a declaration: `<?xml` + declaration body (no `>`) + `?>` +
+    white space + message.  False of the code as it is when the message itself contains the text
+    of `pack.PREFIX` (known finding `C14/soap-prefix-text-removed`). -/
+def C14_soap_string_decl_full : Prop :=
+  ∀ (x m l : Nat) (body ws e : List Nat), [asciiLower x, asciiLower m, asciiLower l] = [120, 109, 108] →
+    62 ∉ body → (∀ c ∈ ws, pyIsSpace c = true) → (∀ c, e.head? = some c → pyIsSpace c = false) →
+    soapWrapStr (60 :: 63 :: x :: m :: l :: body ++ 63 :: 62 :: ws ++ e) = envPre ++ e ++ envPost
+
+/-- **String level, with an XML declaration** (any declaration, with or without line break or other
+    white space after it): exactly the declaration and that white space are dropped. -/
+theorem C14_soap_string_decl_partial (x m l : Nat) (body ws e : List Nat)
+    (hx : [asciiLower x, asciiLower m, asciiLower l] = [120, 109, 108]) (hb : 62 ∉ body)
+    (hws : ∀ c ∈ ws, pyIsSpace c = true) (he : ∀ c, e.head? = some c → pyIsSpace c = false) (hp : NoPrefix e) :
+    soapWrapStr (60 :: 63 :: x :: m :: l :: body ++ 63 :: 62 :: ws ++ e) = envPre ++ e ++ envPost := by
+  unfold soapWrapStr stripDecl removeAll
+  have htake : List.map asciiLower (List.take 5 (60 :: 63 :: x :: m :: l :: body ++ 63 :: 62 :: ws ++ e)) = sXmlDeclStart := by
+    simp only [List.cons_append, List.take_succ_cons, List.take_zero, List.map_cons, List.map_nil, sXmlDeclStart]
+    simp only [List.cons.injEq] at hx
+    obtain ⟨h1, h2, h3, _⟩ := hx
+    simp [h1, h2, h3, asciiLower]
+  have hx' : x ≠ 62 ∧ m ≠ 62 ∧ l ≠ 62 := by
+    simp only [List.cons.injEq] at hx
+    obtain ⟨h1, h2, h3, _⟩ := hx
+    unfold asciiLower at h1 h2 h3
+    refine ⟨?_, ?_, ?_⟩ <;> (intro e; subst e; simp at h1 h2 h3)
+  have hfound : afterDeclEnd (60 :: 63 :: x :: m :: l :: body ++ 63 :: 62 :: ws ++ e) = some (ws ++ e) := by
+    have := afterDeclEnd_found (60 :: 63 :: x :: m :: l :: body) (ws ++ e) (by
+      simp only [List.mem_cons, not_or]
+      exact ⟨by decide, by decide, fun h => hx'.1 h.symm, fun h => hx'.2.1 h.symm, fun h => hx'.2.2 h.symm, hb⟩)
+    simpa using this
+  simp only [htake, if_true, hfound]
+  rw [lstrip_ws ws e hws he, removeAllGo_not_infix _ _ hp]
+
+set_option maxRecDepth 100000 in
+theorem C14_soap_string_decl_counterexample : ¬ C14_soap_string_decl_full := by
+  intro h
+  have := h 120 109 108 [] [] (60 :: 97 :: 62 :: Gen.FormSpec.xmlPrefix ++ [60, 47, 97, 62]) (by decide) (by decide)
+    (by intro c hc; cases hc) (by intro c hc; cases Option.some.inj hc; decide)
+  revert this
+  decide
+
+example : NoPrefix [60, 97, 47, 62] := by unfold NoPrefix; decide
+
+/-! ## 5. Artifacts -/
+
+/-- SHA-1 as a parameter: 20 bytes, injective (collision freedom is an assumption). -/
+structure Sha1 where
+  digest : Bytes → Bytes
+  len : ∀ b, (digest b).length = 20
+  isBytes : ∀ b, IsBytes (digest b)
+  inj : ∀ a b, digest a = digest b → a = b
+
+/-- **Artifact round trip**: for every endpoint index 0..255, entity id and message handle, what
+    `artifact2destination` decodes from `create_artifact`'s output is the index it was created with
+    and the SHA-1 of the issuer's entity id. -/
+theorem C14_artifact_roundtrip (H : Sha1) (eid handle : Bytes) (idx : Int) (h0 : 0 ≤ idx) (h1 : idx ≤ 255)
+    (hh : IsBytes handle) :
+    ∃ art, createArtifact H.digest eid handle idx = some art ∧
+      decodeArtifact art = some { index := idx, sourceId := H.digest eid } :=
+  decode_create H.digest eid handle idx h0 h1 (H.len eid) (H.isBytes eid) hh
+
+/-- An index that does not fit the two-digit field is refused — never encoded as another one. -/
+theorem C14_artifact_out_of_range_refused (sha1 : Bytes → Bytes) (eid handle : Bytes) (idx : Int) (h : idx < 0 ∨ 255 < idx) :
+    createArtifact sha1 eid handle idx = none := by
+  unfold createArtifact
+  have : ¬ (0 ≤ idx ∧ idx ≤ 255) := by omega
+  simp [this]
+
+/-- **Resolution**: in a store of entities with pairwise different ids, the artifact resolves to
+    the entity that issued it, and to that entity's first endpoint carrying the index (`none` =
+    no such endpoint registered). -/
+theorem C14_artifact_resolves_issuer {α : Type} [DecidableEq α] (H : Sha1) (showInt : Int → α)
+    (ents : List (Bytes × List (Option (List (α × α))))) (hnd : (ents.map (·.1)).Nodup)
+    (eid handle : Bytes) (eps : List (α × α)) (hmem : (eid, [some eps]) ∈ ents)
+    (idx : Int) (h0 : 0 ≤ idx) (h1 : idx ≤ 255) (hh : IsBytes handle) :
+    ∃ art, createArtifact H.digest eid handle idx = some art ∧
+      artifact2destination showInt (mkStore H.digest ents) art =
+        (match eps.find? (fun ep => ep.1 = showInt idx) with
+         | some ep => .dest ep.2
+         | none => .noEndpoint) := by
+  obtain ⟨art, hc, hd⟩ := C14_artifact_roundtrip H eid handle idx h0 h1 hh
+  refine ⟨art, hc, ?_⟩
+  unfold artifact2destination
+  simp only [hd, find_issuer H.digest H.inj ents hnd eid [some eps] hmem, scanDescriptors]
+  cases eps.find? (fun ep => ep.1 = showInt idx) <;> rfl
+
+theorem C14_model_meets_spec_artifact (H : Sha1) (eid handle : Bytes) (idx : Int) (hh : IsBytes handle) :
+    specArtifact (H.digest eid) idx (createArtifact H.digest eid handle idx) = true := by
+  by_cases h : 0 ≤ idx ∧ idx ≤ 255
+  · obtain ⟨art, hc, hd⟩ := C14_artifact_roundtrip H eid handle idx h.1 h.2 hh
+    simp [specArtifact, hc, hd]
+  · have : createArtifact H.digest eid handle idx = none := by
+      apply C14_artifact_out_of_range_refused; omega
+    simp only [specArtifact, this]
+    simp only [Bool.not_eq_true', Bool.and_eq_false_iff, decide_eq_false_iff_not]
+    omega
+
+example : decodeArtifact ((createArtifact (fun _ => List.replicate 20 7) [101] [1, 2, 3] 171).getD []) =
+    some { index := 171, sourceId := List.replicate 20 7 } := by decide
+
 end C14
